@@ -273,7 +273,7 @@ Section Uop.
 
   (* (S2) the translated body of the micro-op loop IS balance_uop (the counter of exact zeros is the model's ghost) *)
   Theorem g_bal_uop_eq ports k idx u pp :
-    g_bal_uop N ports k idx u pp = (r <- balance_uop N ports k idx pp u ;; Ok (fst r)).
+    g_bal_uop N k ports idx u pp = (r <- balance_uop N ports k idx pp u ;; Ok (fst r)).
   Proof.
     destruct u as [c ps]. unfold g_bal_uop, balance_uop. cbn [fst snd].
     rewrite (py_map_res_indices ports _ (fun p => bind_ok_id (py_index ports p))).
@@ -296,8 +296,9 @@ Section Uop.
 
   (* (S2') the translated micro-op loop IS balance_uops; the Python passes the same (mutated) kernel object to every
      micro-op, the model passes `set_pp k idx <row so far>`: the same thing (balance_uops_kernel) *)
+  Definition g_bal_uops ports (k : list (instr (T:=T))) idx pp us := py_for us pp (g_bal_uop N k ports idx).
   Theorem g_bal_uops_eq ports idx : forall us k pp ex,
-    g_bal_uops N ports k idx pp us = (r <- balance_uops N ports k idx pp us ex ;; Ok (fst r)).
+    g_bal_uops ports k idx pp us = (r <- balance_uops N ports k idx pp us ex ;; Ok (fst r)).
   Proof.
     unfold g_bal_uops. induction us as [|u us IH]; intros k pp ex; [reflexivity|].
     cbn [py_for balance_uops]. rewrite g_bal_uop_eq.
@@ -305,3 +306,427 @@ Section Uop.
     rewrite (IH k pp' (ex + e)%nat), balance_uops_kernel. reflexivity.
   Qed.
 End Uop.
+
+(* ------------------------------------------------------------------ stage 3: the whole function *)
+Section Full.
+  Context {T : Type} (N : NumOps T).
+  Notation kern := (list (instr (T:=T))).
+  Notation bestT := (option (kern * T)).
+
+  (* the model's two local fixpoints of balance_from, NAMED (exact copies: balance_from_S below is proved by reflexivity,
+     so an edit of Model/Pressure.v that these copies do not follow breaks that lemma) *)
+  Definition m_alts_go (recf : kern -> nat -> res (kern * nat)) (ports : list string) (k : kern) (idx : nat) (ins : instr (T:=T)) :=
+    fix alts_go (al : list (list (uop (T:=T)))) (best : bestT) (ex : nat) : res (bestT * nat) :=
+      match al with
+      | [] => Ok (best, ex)
+      | alt :: more =>
+        pp0 <- avg_pressure_list N ports alt ;;
+        let ktmp := set_instr k idx (mkinstr (i_tp ins) pp0 (UList alt)) in
+        '(kres, e) <- recf (rev ktmp) idx ;;
+        m <- list_max N (tp_sum N kres) ;;
+        let better := match best with
+                      | None => true
+                      | Some (_, btp) => nltb N m btp
+                      end in
+        alts_go more (if better then Some (kres, m) else best) (ex + e)%nat
+      end.
+
+  Definition m_go (recf : kern -> nat -> res (kern * nat)) (ports : list string) :=
+    fix go (todo : list nat) (k : kern) (multi : bool) (best : bestT) (ex : nat) : res (kern * bool * bestT * nat) :=
+      match todo with
+      | [] => Ok (k, multi, best, ex)
+      | idx :: rest =>
+        match nth_error k idx with
+        | None => Err EIndex
+        | Some ins =>
+          r <- (match i_uops ins with
+                | UList us => Ok (k, us, false, None, ex)
+                | UDict alts =>
+                  match alts with
+                  | [] => Err EIndex
+                  | first :: others =>
+                    b <- m_alts_go recf ports k idx ins others None ex ;;
+                    let '(best', ex') := b in
+                    Ok (set_instr k idx (mkinstr (i_tp ins) (i_pp ins) (UList first)), first, true, best', ex')
+                  end
+                end) ;;
+          let '(k1, us, multi', best', ex1) := r in
+          match nth_error k1 idx with
+          | None => Err EIndex
+          | Some ins1 =>
+            '(pp', ex2) <- balance_uops N ports k1 idx (i_pp ins1) us ex1 ;;
+            go rest (set_pp k1 idx pp') multi' (if multi' then best' else best) ex2
+          end
+        end
+      end.
+
+  Definition m_final (kfin : kern) (multi : bool) (best : bestT) (ex : nat) : res (kern * nat) :=
+    let kout := rev kfin in
+    if multi then
+      m <- list_max N (tp_sum N kout) ;;
+      match best with
+      | Some (bk, btp) =>
+        if nltb N btp m
+        then Ok (map (fun p => mkinstr (i_tp (fst p)) (i_pp (snd p)) (i_uops (snd p))) (combine kout bk), ex)
+        else Ok (kout, ex)
+      | None => Ok (kout, ex)
+      end
+    else Ok (kout, ex).
+
+  Lemma balance_from_S fuel' ports kprog start :
+    balance_from N (S fuel') ports kprog start =
+    match tp_sum N kprog with
+    | [] => Ok (kprog, 0%nat)
+    | _ :: _ =>
+      r <- m_go (balance_from N fuel' ports) ports (seq start (List.length (rev kprog) - start)) (rev kprog) false None 0%nat ;;
+      let '(kfin, multi, best, ex) := r in m_final kfin multi best ex
+    end.
+  Proof. reflexivity. Qed.
+  (* ---- list facts *)
+  Lemma set_nth_length {A} : forall (l : list A) i v l', set_nth l i v = Ok l' -> List.length l' = List.length l.
+  Proof.
+    induction l as [|x l IH]; intros i v l' H; [destruct i; discriminate|]. destruct i as [|i]; [inversion H; reflexivity|].
+    cbn [set_nth] in H. destruct (set_nth l i v) as [r|] eqn:E; [|discriminate]. inversion H; subst. cbn [List.length].
+    f_equal. eapply IH; exact E.
+  Qed.
+  Lemma set_instr_length (k : kern) idx v : List.length (set_instr k idx v) = List.length k.
+  Proof. unfold set_instr. destruct (set_nth k idx v) eqn:E; [eapply set_nth_length; exact E|reflexivity]. Qed.
+  Lemma set_pp_length (k : kern) idx pp : List.length (set_pp k idx pp) = List.length k.
+  Proof.
+    unfold set_pp. destruct (nth_error k idx); [|reflexivity].
+    destruct (set_nth k idx _) eqn:E; [eapply set_nth_length; exact E|reflexivity].
+  Qed.
+  Lemma set_nth_instr (k : kern) idx ins v : nth_error k idx = Some ins -> set_nth k idx v = Ok (set_instr k idx v).
+  Proof. intros H. destruct (set_nth_some k idx ins v H) as [k' E]. unfold set_instr. rewrite E. reflexivity. Qed.
+  Lemma nth_res_some {A} (l : list A) i x : nth_error l i = Some x -> nth_res l i = Ok x.
+  Proof. intros H. unfold nth_res. rewrite H. reflexivity. Qed.
+  Lemma set_instr_nth (k : kern) idx ins v : nth_error k idx = Some ins -> nth_error (set_instr k idx v) idx = Some v.
+  Proof. intros H. eapply set_nth_nth_error. apply (set_nth_instr k idx ins v H). Qed.
+  Lemma set_instr_twice (k : kern) idx ins v w : nth_error k idx = Some ins -> set_instr (set_instr k idx v) idx w = set_instr k idx w.
+  Proof.
+    intros H. unfold set_instr at 1 3. rewrite (set_nth_twice _ _ _ w _ (set_nth_instr k idx ins v H)).
+    rewrite (set_nth_instr k idx ins w H). reflexivity.
+  Qed.
+
+  (* ---- length is kept by the model (needed for the final copy loop: Python indexes, the model zips) *)
+  Definition best_len (n : nat) (b : bestT) : Prop := forall bk bt, b = Some (bk, bt) -> List.length bk = n.
+
+  Section Len.
+    Variables (recf : kern -> nat -> res (kern * nat)) (ports : list string).
+    Hypothesis recf_len : forall k s k' e, recf k s = Ok (k', e) -> List.length k' = List.length k.
+
+    Lemma m_alts_go_len k idx ins : forall al best ex best' ex',
+      best_len (List.length k) best -> m_alts_go recf ports k idx ins al best ex = Ok (best', ex') -> best_len (List.length k) best'.
+    Proof.
+      induction al as [|alt al IH]; intros best ex best' ex' HB H; cbn [m_alts_go] in H.
+      - inversion H; subst. exact HB.
+      - destruct (avg_pressure_list N ports alt) as [pp0|]; [|discriminate]. cbn [bind] in H.
+        destruct (recf _ idx) as [[kres e]|] eqn:R; [|discriminate]. cbn [bind] in H.
+        destruct (list_max N (tp_sum N kres)) as [m|]; [|discriminate]. cbn [bind] in H.
+        apply recf_len in R. rewrite rev_length, set_instr_length in R.
+        eapply IH; [|exact H]. destruct (match best with Some (_, btp) => nltb N m btp | None => true end); [|exact HB].
+        intros bk bt E. inversion E; subst. exact R.
+    Qed.
+
+    Lemma m_go_len : forall todo k multi best ex kf mf bf ef,
+      best_len (List.length k) best -> m_go recf ports todo k multi best ex = Ok (kf, mf, bf, ef) ->
+      List.length kf = List.length k /\ best_len (List.length k) bf.
+    Proof.
+      induction todo as [|idx todo IH]; intros k multi best ex kf mf bf ef HB H; cbn [m_go] in H.
+      - inversion H; subst. split; [reflexivity|exact HB].
+      - destruct (nth_error k idx) as [ins|] eqn:Hk; [|discriminate].
+        destruct (i_uops ins) as [us|alts].
+        + cbn [bind] in H. rewrite Hk in H.
+          destruct (balance_uops N ports k idx (i_pp ins) us ex) as [[pp' ex2]|]; [|discriminate]. cbn [bind] in H.
+          apply IH in H; [|rewrite set_pp_length; exact HB]. rewrite set_pp_length in H. exact H.
+        + destruct alts as [|first others]; [discriminate|].
+          destruct (m_alts_go recf ports k idx ins others None ex) as [[best' ex']|] eqn:A; [|discriminate]. cbn [bind] in H.
+          apply m_alts_go_len in A; [|intros ? ? E; discriminate].
+          rewrite (set_instr_nth k idx ins _ Hk) in H. cbn [i_pp] in H.
+          destruct (balance_uops N ports _ idx (i_pp ins) first ex') as [[pp' ex2]|]; [|discriminate]. cbn [bind] in H.
+          apply IH in H; [|rewrite set_pp_length, set_instr_length; exact A].
+          rewrite set_pp_length, set_instr_length in H. exact H.
+    Qed.
+
+    Lemma m_final_len kfin multi best ex k' e :
+      best_len (List.length kfin) best -> m_final kfin multi best ex = Ok (k', e) -> List.length k' = List.length kfin.
+    Proof.
+      intros HB H. unfold m_final in H. destruct multi; [|inversion H; apply rev_length].
+      destruct (list_max N _) as [m|]; [|discriminate]. cbn [bind] in H.
+      destruct best as [[bk bt]|]; [|inversion H; apply rev_length].
+      destruct (nltb N bt m); [|inversion H; apply rev_length]. inversion H; subst.
+      rewrite map_length, combine_length, rev_length, (HB bk bt eq_refl). apply Nat.min_id.
+    Qed.
+  End Len.
+
+  Theorem balance_from_length : forall fuel ports k s k' e,
+    balance_from N fuel ports k s = Ok (k', e) -> List.length k' = List.length k.
+  Proof.
+    induction fuel as [|fuel IH]; intros ports k s k' e H; [discriminate|]. rewrite balance_from_S in H.
+    destruct (tp_sum N k); [inversion H; reflexivity|].
+    destruct (m_go _ ports _ (rev k) false None 0%nat) as [[[[kf mf] bf] ef]|] eqn:G; [|discriminate]. cbn [bind] in H.
+    apply (m_go_len _ ports (IH ports)) in G; [|intros ? ? E; discriminate]. destruct G as [L B].
+    apply m_final_len in H; [|rewrite L; exact B]. rewrite H, L. apply rev_length.
+  Qed.
+  (* ---- the alternatives loop *)
+  Definition unjn (b : bestT) : option kern * option T :=
+    match b with Some (bk, bt) => (Some bk, Some bt) | None => (None, None) end.
+
+  Section Loops.
+    Variables (recf : kern -> nat -> res (kern * nat)) (grec : kern -> nat -> res kern) (ports : list string).
+    Hypothesis Hrec : forall k s, grec k s = (r <- recf k s ;; Ok (fst r)).
+
+    Lemma alt_loop k idx ins : nth_error k idx = Some ins -> forall al best ex,
+      py_for al (unjn best) (g_bal_alt N ports grec k idx) =
+      (r <- m_alts_go recf ports k idx ins al best ex ;; Ok (unjn (fst r))).
+    Proof.
+      intros Hk. induction al as [|alt al IH]; intros best ex; [reflexivity|].
+      cbn [py_for m_alts_go]. unfold g_bal_alt at 1.
+      assert (ST : forall bk bt, (let '(v_best_kernel, v_best_kernel_tp) := (bk, bt) in
+                                   g_bal_alt N ports grec k idx alt (v_best_kernel, v_best_kernel_tp)) =
+                                  g_bal_alt N ports grec k idx alt (bk, bt)) by reflexivity.
+      set (ALT := mkinstr (i_tp ins) (i_pp ins) (UList alt)).
+      assert (E1 : nth_res k idx = Ok ins) by (apply nth_res_some; exact Hk).
+      assert (E2 : set_nth k idx ALT = Ok (set_instr k idx ALT)) by (eapply set_nth_instr; exact Hk).
+      assert (E3 : nth_res (set_instr k idx ALT) idx = Ok ALT) by (apply nth_res_some; eapply set_instr_nth; exact Hk).
+      replace (unjn best) with (fst (unjn best), snd (unjn best)) by (destruct (unjn best); reflexivity).
+      cbn beta iota zeta. rewrite E1. cbn [bind]. fold ALT. rewrite E2. cbn [bind]. rewrite E3. cbn [bind].
+      unfold ALT at 1. cbn [i_uops]. rewrite g_avg_list.
+      destruct (avg_pressure_list N ports alt) as [pp0|e0]; [|reflexivity]. cbn [bind].
+      subst ALT. cbn [i_tp i_uops].
+      rewrite (set_nth_twice _ _ _ _ _ E2).
+      rewrite (set_nth_instr k idx ins _ Hk). cbn [bind]. rewrite Hrec.
+      destruct (recf (rev (set_instr k idx (mkinstr (i_tp ins) pp0 (UList alt)))) idx) as [[kres e]|e0]; cbn [bind]; [|reflexivity].
+      cbn [bind fst]. rewrite g_get_throughput_sum_eq. cbn [bind]. rewrite py_max_eq.
+      destruct (list_max N (tp_sum N kres)) as [m|e0] eqn:EM; cbn [bind]; [|reflexivity].
+      destruct best as [[bk bt]|]; cbn [unjn fst snd py_lt_maxsize].
+      - destruct (nltb N m bt).
+        + cbn [py_some bind]. rewrite g_get_throughput_sum_eq. cbn [bind]. rewrite py_max_eq, EM. cbn [bind].
+          exact (IH (Some (kres, m)) (ex + e)%nat).
+        + exact (IH (Some (bk, bt)) (ex + e)%nat).
+      - cbn [py_some bind]. rewrite g_get_throughput_sum_eq. cbn [bind]. rewrite py_max_eq, EM. cbn [bind].
+        exact (IH (Some (kres, m)) (ex + e)%nat).
+    Qed.
+    (* ---- the instruction loop *)
+    Definition gst (multi : bool) (best : bestT) (k : kern) : bool * option kern * option T * kern :=
+      (multi, fst (unjn best), snd (unjn best), k).
+
+    Lemma go_loop : forall todo k multi best ex,
+      py_for todo (gst multi best k) (g_bal_instr N ports grec ports) =
+      (r <- m_go recf ports todo k multi best ex ;; let '(kf, mf, bf, _) := r in Ok (gst mf bf kf)).
+    Proof.
+      induction todo as [|idx todo IH]; intros k multi best ex; [reflexivity|].
+      cbn [py_for m_go]. unfold g_bal_instr at 1. unfold gst at 1. cbn beta iota zeta.
+      unfold nth_res at 1. destruct (nth_error k idx) as [ins|] eqn:Hk; [|reflexivity]. cbn [bind].
+      destruct (i_uops ins) as [us|alts] eqn:EU.
+      - (* a list of micro-ops *)
+        cbn [bind]. rewrite (nth_res_some _ _ _ Hk). cbn [bind]. rewrite EU. cbn [py_iter_uops bind]. rewrite Hk.
+        change (py_for us (i_pp ins) (g_bal_uop N k ports idx)) with (g_bal_uops N ports k idx (i_pp ins) us).
+        rewrite (g_bal_uops_eq N ports idx us k (i_pp ins) ex).
+        destruct (balance_uops N ports k idx (i_pp ins) us ex) as [[pp' ex2]|e0]; cbn [bind fst]; [|reflexivity].
+        exact (IH (set_pp k idx pp') false best ex2).
+      - (* alternatives *)
+        destruct alts as [|first others].
+        + cbn [skipn py_for bind nth_res nth_error]. reflexivity.
+        + cbn [skipn]. pose proof (alt_loop k idx ins Hk others None ex) as AL.
+          match type of AL with ?L = _ => match goal with |- context [py_for others ?a ?b] => change (py_for others a b) with L end end.
+          rewrite AL. clear AL.
+          destruct (m_alts_go recf ports k idx ins others None ex) as [[best' ex']|e0]; cbn [bind fst]; [|reflexivity].
+          replace (unjn best') with (fst (unjn best'), snd (unjn best')) by (destruct (unjn best'); reflexivity).
+          cbn beta iota zeta. cbn [nth_res nth_error bind]. rewrite (nth_res_some _ _ _ Hk). cbn [bind].
+          set (FI := mkinstr (i_tp ins) (i_pp ins) (UList first)).
+          rewrite (set_nth_instr k idx ins FI Hk). cbn [bind].
+          rewrite (nth_res_some _ _ _ (set_instr_nth k idx ins FI Hk)). cbn [bind].
+          rewrite (set_instr_nth k idx ins FI Hk). cbn [FI i_uops i_pp py_iter_uops bind].
+          pose proof (g_bal_uops_eq N ports idx first (set_instr k idx FI) (i_pp ins) ex') as GE. unfold g_bal_uops in GE.
+          match type of GE with ?L = _ => match goal with |- context [py_for first ?a ?b] => change (py_for first a b) with L end end.
+          rewrite GE. clear GE.
+          destruct (balance_uops N ports (set_instr k idx FI) idx (i_pp ins) first ex') as [[pp' ex2]|e0]; cbn [bind fst]; [|reflexivity].
+          exact (IH (set_pp (set_instr k idx FI) idx pp') true best' ex2).
+    Qed.
+  End Loops.
+
+  (* ---- the final copy loop: `for i, instr in enumerate(best_kernel): kernel[i].port_uops = ...; kernel[i].port_pressure = ...`
+     is the model's zip of the two kernels WHEN THEY HAVE THE SAME LENGTH (Python indexes, the model truncates) *)
+  Definition cp (p : instr (T:=T) * instr (T:=T)) : instr (T:=T) := mkinstr (i_tp (fst p)) (i_pp (snd p)) (i_uops (snd p)).
+
+  Lemma nth_error_mid {A} (a : list A) x b : nth_error (a ++ x :: b) (List.length a) = Some x.
+  Proof. rewrite nth_error_app2 by apply Nat.le_refl. rewrite Nat.sub_diag. reflexivity. Qed.
+  Lemma set_nth_mid {A} : forall (a : list A) x b v, set_nth (a ++ x :: b) (List.length a) v = Ok (a ++ v :: b).
+  Proof. induction a as [|y a IH]; intros x b v; [reflexivity|]. cbn [app List.length set_nth]. rewrite IH. reflexivity. Qed.
+
+  Lemma copy_loop : forall bk2 done todo bk1,
+    List.length bk1 = List.length done -> List.length todo = List.length bk2 ->
+    py_for (combine (seq (List.length done) (List.length bk2)) bk2) (done ++ todo) (g_bal_copy (Some (bk1 ++ bk2))) =
+    Ok (done ++ map cp (combine todo bk2)).
+  Proof.
+    induction bk2 as [|b bk2 IH]; intros done todo bk1 L1 L2.
+    - destruct todo; [|discriminate]. reflexivity.
+    - destruct todo as [|x todo]; [discriminate|]. cbn [List.length seq combine py_for map].
+      unfold g_bal_copy at 1. cbn beta iota zeta. cbn [py_some bind].
+      assert (B : nth_res (bk1 ++ b :: bk2) (List.length done) = Ok b).
+      { apply nth_res_some. rewrite <- L1. apply nth_error_mid. }
+      rewrite B. cbn [bind]. rewrite (nth_res_some _ _ _ (nth_error_mid done x todo)). cbn [bind].
+      rewrite set_nth_mid. cbn [bind]. rewrite (nth_res_some _ _ _ (nth_error_mid done _ todo)). cbn [bind].
+      rewrite set_nth_mid. cbn [bind i_tp i_uops].
+      replace (S (List.length done)) with (List.length (done ++ [cp (x, b)])) by (rewrite app_length; cbn; lia).
+      replace (bk1 ++ b :: bk2) with ((bk1 ++ [b]) ++ bk2) by (rewrite <- app_assoc; reflexivity).
+      change (done ++ mkinstr (i_tp x) (i_pp b) (i_uops b) :: todo) with (done ++ [cp (x, b)] ++ todo).
+      rewrite app_assoc. rewrite IH.
+      + rewrite <- app_assoc. reflexivity.
+      + rewrite !app_length. cbn. lia.
+      + cbn in L2. lia.
+  Qed.
+
+  (* (S3) THE WHOLE FUNCTION: the regenerated assign_optimal_throughput IS the hand model's balance_from, for every
+     numeric instance, every fuel, port list, kernel and start index, error outcomes included (the model additionally
+     returns its ghost counter of exact zeros) *)
+  Theorem g_assign_optimal_throughput_eq : forall fuel ports k start,
+    g_assign_optimal_throughput N fuel ports k start = (r <- balance_from N fuel ports k start ;; Ok (fst r)).
+  Proof.
+    induction fuel as [|fuel IH]; intros ports k start; [reflexivity|].
+    rewrite balance_from_S. cbn [g_assign_optimal_throughput]. rewrite g_get_throughput_sum_eq. cbn [bind].
+    destruct (tp_sum N k) as [|t0 ts] eqn:TP; [reflexivity|]. cbn [negb]. cbn zeta.
+    change (false, @None kern, @None T, rev k) with (gst false None (rev k)).
+    rewrite (go_loop (balance_from N fuel ports) (g_assign_optimal_throughput N fuel ports) ports (IH ports) _ (rev k) false None 0%nat).
+    destruct (m_go (balance_from N fuel ports) ports (seq start (List.length (rev k) - start)) (rev k) false None 0%nat)
+      as [[[[kf mf] bf] ef]|e0] eqn:G; cbn [bind]; [|reflexivity].
+    apply (m_go_len _ ports (balance_from_length fuel ports)) in G; [|intros ? ? E; discriminate]. destruct G as [LK LB].
+    unfold gst, m_final. cbn beta iota zeta. destruct mf; [|reflexivity].
+    rewrite g_get_throughput_sum_eq. cbn [bind]. rewrite py_max_eq.
+    destruct (list_max N (tp_sum N (rev kf))) as [m|e0]; cbn [bind]; [|reflexivity].
+    destruct bf as [[bk bt]|]; cbn [unjn fst snd py_gt_maxsize]; [|reflexivity].
+    destruct (nltb N bt m); [|reflexivity]. cbn [py_some bind].
+    pose proof (copy_loop bk [] (rev kf) [] eq_refl) as CL. cbn [app List.length] in CL.
+    unfold py_enumerate. rewrite CL; [reflexivity|]. rewrite rev_length, LK. symmetry. exact (LB bk bt eq_refl).
+  Qed.
+End Full.
+
+(* ------------------------------------------------------------------ property theorems *)
+From OV Require Import Proofs.Feasible Proofs.PressureQ Proofs.BalanceFrame Proofs.BalanceMulti Proofs.BalancePass Proofs.BalanceTotal
+  Proofs.Optimum.
+
+(* what the call `assign_optimal_throughput(kernel)` computes: the regenerated function from start = 0, with the fuel of the
+   model's `balance` (the nesting of the alternative search is bounded by the number of instructions) *)
+Definition g_pass {T} (N : NumOps T) (ports : list string) (k : list (instr (T:=T))) : res (list (instr (T:=T))) :=
+  g_assign_optimal_throughput N (S (List.length k)) ports k 0.
+
+(* (T1) one iteration of the regenerated inner loop = the break test + the hand model's bstep; (T1') the loop = bloop *)
+Theorem C01bal_step_is_model : forall (T : Type) (N : NumOps T) k idx s,
+  g_bal_body N k idx (st_of s) =
+  match b_ip s with [_] => Ok (true, st_of s) | _ => s' <- bstep N k idx s ;; Ok (false, st_of s') end.
+Proof. intros. apply g_bal_body_step. Qed.
+Print Assumptions C01bal_step_is_model.
+
+Theorem C01bal_loop_is_model : forall (T : Type) (N : NumOps T) k idx n s,
+  py_loop n (st_of s) (g_bal_body N k idx) = (s' <- bloop N n k idx s ;; Ok (st_of s')).
+Proof. intros. apply g_bal_loop_eq. Qed.
+Print Assumptions C01bal_loop_is_model.
+
+(* (T2) the regenerated body of `for uop in instruction_form.port_uops` = balance_uop, the loop = balance_uops *)
+Theorem C01bal_uop_is_model : forall (T : Type) (N : NumOps T) ports k idx u pp,
+  g_bal_uop N k ports idx u pp = (r <- balance_uop N ports k idx pp u ;; Ok (fst r)).
+Proof. intros. apply g_bal_uop_eq. Qed.
+Print Assumptions C01bal_uop_is_model.
+
+Theorem C01bal_uops_is_model : forall (T : Type) (N : NumOps T) ports k idx us pp ex,
+  py_for us pp (g_bal_uop N k ports idx) = (r <- balance_uops N ports k idx pp us ex ;; Ok (fst r)).
+Proof. intros. apply (g_bal_uops_eq N ports idx us k pp ex). Qed.
+Print Assumptions C01bal_uops_is_model.
+
+(* (T3) the regenerated assign_optimal_throughput = balance_from (alternatives, recursion, final comparison included) *)
+Theorem C01bal_function_is_model : forall (T : Type) (N : NumOps T) fuel ports k start,
+  g_assign_optimal_throughput N fuel ports k start = (r <- balance_from N fuel ports k start ;; Ok (fst r)).
+Proof. intros. apply g_assign_optimal_throughput_eq. Qed.
+Print Assumptions C01bal_function_is_model.
+
+Theorem C01bal_pass_is_model : forall (T : Type) (N : NumOps T) ports k,
+  g_pass N ports k = (r <- balance N ports k ;; Ok (fst r)).
+Proof. intros. apply g_assign_optimal_throughput_eq. Qed.
+Print Assumptions C01bal_pass_is_model.
+
+Lemma g_pass_ok {T} (N : NumOps T) ports k k' : g_pass N ports k = Ok k' -> exists e, balance N ports k = Ok (k', e).
+Proof.
+  rewrite C01bal_pass_is_model. destruct (balance N ports k) as [[k1 e]|]; [|discriminate].
+  intros H. inversion H; subst. exists e. reflexivity.
+Qed.
+
+(* the model keeps the kernel's length -- for the regenerated function: the caller's list keeps its length *)
+Theorem C01bal_length_kept : forall (T : Type) (N : NumOps T) fuel ports k start k',
+  g_assign_optimal_throughput N fuel ports k start = Ok k' -> List.length k' = List.length k.
+Proof.
+  intros T N fuel ports k start k'. rewrite C01bal_function_is_model.
+  destruct (balance_from N fuel ports k start) as [[k1 e]|] eqn:B; [|discriminate]. intros H. inversion H; subst.
+  exact (balance_from_length N fuel ports k start k' e B).
+Qed.
+Print Assumptions C01bal_length_kept.
+
+(* (C1) Props/C01.v (3) for the regenerated micro-op loop: only cells of ports the micro-ops may use change *)
+Theorem C01bal_balance_preserves_support : forall (T : Type) (N : NumOps T) (d : T) ports idx us k pp pp',
+  py_for us pp (g_bal_uop N k ports idx) = Ok pp' ->
+  List.length pp' = List.length pp /\ forall j, ~ allowed ports us j -> nth j pp' d = nth j pp d.
+Proof.
+  intros T N d ports idx us k pp pp'. rewrite (C01bal_uops_is_model T N ports k idx us pp 0%nat).
+  destruct (balance_uops N ports k idx pp us 0%nat) as [[p1 e]|] eqn:B; [|discriminate]. intros H. inversion H; subst.
+  exact (balance_uops_frame N d ports idx us k pp 0%nat pp' e B).
+Qed.
+Print Assumptions C01bal_balance_preserves_support.
+
+(* (C2) Props/C01.v (12)+(17) for the REGENERATED function (exact rationals, kernels of any length without alternatives, every
+   instruction as the semantic stage builds it): the call returns, the kernel keeps its length, every instruction keeps its
+   throughput and micro-ops, and every row is a feasible split of its own micro-ops with slack 1/100, all cells >= 0 *)
+Theorem C01bal_one_pass_total_feasible : forall ports (k : list (instr (T:=Q))),
+  all_start_ok ports k ->
+  exists k', g_pass QNum ports k = Ok k' /\
+    List.length k' = List.length k /\
+    forall j, (j < List.length k)%nat ->
+      i_tp (nth j k' dins) = i_tp (nth j k dins) /\ i_uops (nth j k' dins) = i_uops (nth j k dins) /\
+      done_ok ports (nth j k' dins).
+Proof.
+  intros ports k H. destruct (balance_pass_total_feasible ports k H) as (k' & e & B & R).
+  exists k'. split; [|exact R]. rewrite C01bal_pass_is_model, B. reflexivity.
+Qed.
+Print Assumptions C01bal_one_pass_total_feasible.
+
+Theorem C01bal_one_pass_feasible : forall ports (k k' : list (instr (T:=Q))),
+  all_start_ok ports k -> g_pass QNum ports k = Ok k' ->
+  List.length k' = List.length k /\
+  forall j, (j < List.length k)%nat ->
+    i_tp (nth j k' dins) = i_tp (nth j k dins) /\ i_uops (nth j k' dins) = i_uops (nth j k dins) /\
+    done_ok ports (nth j k' dins).
+Proof. intros ports k k' H G. destruct (g_pass_ok QNum ports k k' G) as [e B]. exact (balance_pass_feasible ports k k' e H B). Qed.
+Print Assumptions C01bal_one_pass_feasible.
+
+(* (C3) Props/C02.v (3) for the REGENERATED function: the reported bottleneck after one pass is at least the optimum of the
+   INPUT kernel's counted micro-ops on every non-empty port set, minus the explicit slack *)
+Theorem C02bal_one_pass_near_optimum : forall ports (k k' : list (instr (T:=Q))) B S,
+  all_start_ok ports k -> g_pass QNum ports k = Ok k' -> bottleneck QNum k' = Ok B ->
+  0 < card (List.length ports) S ->
+  kconfined S (kview ports (filter (counted QNum) k)) / card (List.length ports) S
+  - (1 # 100) * knonconf S (kview ports (filter (counted QNum) k)) - (1 # 200) <= B.
+Proof.
+  intros ports k k' B S H G. destruct (g_pass_ok QNum ports k k' G) as [e BL].
+  exact (pass_bottleneck_near_optimum ports k k' e B S H BL).
+Qed.
+Print Assumptions C02bal_one_pass_near_optimum.
+
+(* non-vacuity (exact rationals): the regenerated function evaluates.  (a) the 3-port kernel of C01_one_pass_nonvacuous meets the
+   hypothesis of (C2) and its first row is re-balanced; (b) a kernel whose first instruction has two alternative port
+   assignments (port 0 | port 1) next to an instruction on port 0: the alternative search (recursion, comparison of the port
+   maxima, final copy loop) picks the second alternative; (c) an empty kernel / a kernel without throughput returns at once;
+   (d) a micro-op naming a port the model does not have raises ValueError (list.index) *)
+Example C01bal_nonvacuous :
+  all_start_ok exm_ports exm_kernel /\
+  (exists k', g_pass QNum exm_ports exm_kernel = Ok k' /\ i_pp (nth 0 k' dins) = [12 # 25; 63 # 100; 16 # 25]
+              /\ i_pp (nth 0 exm_kernel dins) = [1 # 2; 3 # 4; 1 # 2]) /\
+  g_pass QNum ["0"; "1"]%string
+    [mkinstr 1 [1; 0] (UDict [[(1, ["0"]%string)]; [(1, ["1"]%string)]]); mkinstr 1 [1; 0] (UList [(1, ["0"]%string)])]
+  = Ok [mkinstr 1 [0; 1] (UList [(1, ["1"]%string)]); mkinstr 1 [1; 0] (UList [(1, ["0"]%string)])] /\
+  g_pass QNum ["0"; "1"]%string [] = Ok [] /\
+  g_pass QNum ["0"; "1"]%string [mkinstr 0 [1; 0] (UList [(1, ["0"]%string)])] = Ok [mkinstr 0 [1; 0] (UList [(1, ["0"]%string)])] /\
+  g_pass QNum ["0"; "1"]%string [mkinstr 1 [1; 0] (UList [(1, ["7"]%string)])] = Err EValue.
+Proof.
+  split; [exact (proj1 balance_pass_nonvacuous)|]. split.
+  - eexists. split; [vm_compute; reflexivity|]. split; vm_compute; reflexivity.
+  - repeat split; vm_compute; reflexivity.
+Qed.
